@@ -1629,6 +1629,10 @@ int __wrap(pthread_key_create)(pthread_key_t *key, void (*destructor)(void *)) {
   (void)_;
   if (myth_should_wrap_pthread()) {
     ret = myth_key_create_body((myth_key_t *)key, destructor);
+    if (ret == 0) {
+      /* POSIX: a destructor is called only for a non-NULL value */
+      g_myth_tls_key_allocator->keys[*key].posix_destructor = 1;
+    }
   } else {
     ret = real_pthread_key_create(key, destructor);
   }
